@@ -15,6 +15,7 @@ class Violation(Exception):
         Exception.__init__(s, msg); s.kind = kind; s.obj = obj     # obj = (kind, name, size, offset, nbytes) of the object missed
 class PathEnd(Exception): pass
 class Inconclusive(Exception): pass
+class SliceEnd(Exception): pass
 
 def mask(v, w): return v & ((1 << w) - 1)
 def sgn(v, w): return v - (1 << w) if v >> (w - 1) else v
@@ -970,7 +971,7 @@ class Interp:
         """explore all paths of `entry`.
         prefix: list of decisions to replay first (worker mode).  frontier: if set, stop once that many pending states
         exist and return their decision lists (splitter mode).  on_path(st, kind, info) is called for every finished path."""
-        t0 = time.time()
+        t0 = time.time(); s.deadline = t0 + timeout; s.tick = 0
         st = s.start_state(entry)
         if prefix: st.forced = list(reversed(prefix))
         s.pending = [st]; s.paths = 0; s.violations = []; s.pruned = 0; s.nviol = 0; s.incomplete = []
@@ -985,6 +986,9 @@ class Interp:
                 s.exec_path(st)
                 s.paths += 1
                 if on_path: on_path(st, 'ok', None)
+            except SliceEnd:
+                # the time slice ended in the middle of a path: hand the path back as a decision prefix (it is re-executed from the start)
+                rs = State.__new__(State); rs.decisions = list(st.decisions); rs.forced = None; s.pending.append(rs); status = 'timeout'; break
             except PathEnd:
                 s.pruned += 1
                 if on_path and not st.forced: on_path(st, 'pruned', None)     # its prefix was feasible: reachability witnesses on it count
@@ -1148,6 +1152,8 @@ class Interp:
                 elif k == 'unreachable': raise Violation('reached unreachable in ' + fr.fn, 'abort')
                 else: raise Err('exec ' + k)
             st.insns += n_exec; stats['insn'] += n_exec
+            s.tick += 1
+            if s.tick & 0x3FF == 0 and time.time() > s.deadline and not st.forced: raise SliceEnd()
             if st.insns > max_insns: raise Violation('instruction budget of %d exceeded on one path (possible non-termination)' % max_insns, 'hang')
 
     def val(s, fr, o):
